@@ -5,7 +5,7 @@ func init() {
 		ID:          "C05",
 		Explanation: "RA over the stable compiler's scheduler and the shared symbol table: executor.results and result.blockedOn are touched only under their mutex; executor/result fields read without locks are never assigned after construction; descriptorProtoIsCustom is written only inside its sync.Once. RB: result.res/err are written only in fail/complete (write; close(ready)) and every other read is dominated by a receive from the same result's ready channel. RC5: Compile returns descriptors indexed by request position only after the handler verdict. RI/RJ: no map-order-, clock- or random-dependent value is produced in functions reachable from Compiler.Compile except through the listed order-insensitive idioms. RA4: insert-if-absent writes of the symbol table happen in the critical section that validated them.",
 		NotDecided:  "that linking a file is a pure function of its inputs beyond those sources; order of reporter callbacks (unconstrained by the property)",
-		Rules:       []func(*World){raCompiler, rbCompiler, rcCompile, raSymbols, ra4Symbols},
+		Rules:       []func(*World){raCompiler, rbCompiler, rcCompile, raSymbols, ra4Symbols, rc10ExplicitRegistration, riCompile},
 	})
 	register(&Property{
 		ID:          "C06",
@@ -51,9 +51,9 @@ func init() {
 	})
 	register(&Property{
 		ID:          "C36",
-		Explanation: "RC4: Run returns a report only after Canonicalize and nothing is appended afterwards. RU: every field of report.Diagnostic must be a sort key of Canonicalize (directly, or through Primary()); un-keyed observable fields make the canonical order depend on the input order and are reported.",
+		Explanation: "RI/RJ: over the module functions reachable (VTA call graph) from the query bodies, task.run and Canonicalize, no clock/random/environment primitive is called outside the reviewed stopwatch, and every map / sync.Map iteration is order-insensitive by idiom or reviewed (diagnostics pushed in map order are sorted by Canonicalize before being observable). RC4: Run returns a report only after Canonicalize and nothing is appended afterwards. RU: every field of report.Diagnostic must be a sort key of Canonicalize (directly, or through Primary()); un-keyed observable fields make the canonical order depend on the input order and are reported.",
 		NotDecided:  "idempotence of de-duplication; determinism of the diagnostics each query produces",
-		Rules:       []func(*World){rc4Incremental, ruCanonicalize},
+		Rules:       []func(*World){rc4Incremental, ruCanonicalize, riIncremental},
 	})
 	register(&Property{
 		ID:          "C37",
